@@ -2,6 +2,7 @@
    (Stack part: list core.  The Condition part is in CondProps below when
    the Condition model is present.)  Property theorems only. *)
 From Stackage Require Import Base Generated StackImpl StackSpec StackSpecLemmas StackRefine StackCorollaries.
+From Stackage Require Import Guard GeneratedIR GuardProps.
 From Stackage Require Import PushTie.
 Open Scope Z_scope.
 
@@ -90,6 +91,25 @@ Theorem c13_generic_push_loop_is_the_source_loop :
     end.
 Proof. exact generic_append_iteration. Qed.
 Print Assumptions c13_generic_push_loop_is_the_source_loop.
+
+
+(* "... and doing so never alters ... the content", on the code as it is now:
+   over the statement IR regenerated from /repo, NO exported method other than
+   the content mutators (Push Pop Insert Remove Replace Swap Reverse Reset
+   Defrag Reveal Transfer Marshal Free Init SetKeyword SetOperator
+   SetExpression) - so no option switch and no setter of any other setting -
+   contains, on any path and for any arguments, a store into a slice header,
+   an element slot, a part of a Condition or a handle, of the receiver or of
+   any nested object. *)
+Theorem c13_only_content_mutators_store_content :
+  forall e, In e ir_entries -> is_inst_class e = true -> named content_mutators e = false ->
+            entry_ok ir_table bad_content env_init e.
+Proof. apply content_untouched_static. vm_compute. reflexivity. Qed.
+Print Assumptions c13_only_content_mutators_store_content.
+
+Theorem c13_option_setters_are_covered : option_setters_covered = true.
+Proof. vm_compute. reflexivity. Qed.
+Print Assumptions c13_option_setters_are_covered.
 
 Example c13_nonvacuous :
   let isst := fun v : Z => v <? 0 in
